@@ -5,6 +5,8 @@ P: convert_gate (dispatch + all ten _convert_* rewrites inlined down to _add_use
    outputs, acyclicity by ghost rank, blocks), frame (only the rewritten gate and one fresh helper
    change), local semantic equation (new definition of the gate computes the old one), bench types,
    helper gate inside exactly the blocks that contained the gate.
+   into_bench as a whole on an arbitrary circuit (c14_loop.py): loop invariant, convert_gate by its contract: WF, only bench types remain,
+   original gates / inputs / outputs kept, new equations imply the original ones.
 B: into_bench as a whole on enumerated circuits (vlib/bounded/C14.py)."""
 import z3
 
@@ -170,6 +172,12 @@ class ConvertGate(Contract):
         S1r.rank = rank1
         for nm, f in CM.wf_goals(ctx, S1r):
             yield ('WF/' + nm, f, {'witness': 'const-with-operands' if self.t in S.CONST else 'wf'})
+        # the rank of the post-state is again in normal form; size grows by the number of helpers (used by the into_bench loop, c14_loop.py)
+        lr = ctx.fresh(LabelSort, 'lrk')
+        yield ('rank-normal-form-kept', z3.And(rank1(lr) >= 0, z3.Implies(z3.And(S1.dom(lr), S1.typ(lr) == GT['INPUT']), z3.And(rank1(lr) == 0, S1.nops(lr) == 0)),
+                                               z3.Implies(z3.And(S1.dom(lr), S1.typ(lr) != GT['INPUT']), rank1(lr) >= 1)))
+        yield ('size', S1.size == S0.size + len(fresh))
+        yield ('blocks/same-generic-block', z3.And(S1.b_member == S0.b_member, S1.b_name == S0.b_name))
         # frame
         l = ctx.fresh(LabelSort, 'lfr')
         x = ctx.fresh(LabelSort, 'xfr')
@@ -231,13 +239,22 @@ def run(rep):
     for a in STD_ASSUME:
         rep.assume(a)
     rep.assume('precondition ARITY (W6) on the converted gate; INPUT gates have no operands')
-    rep.assume('into_bench applies convert_gate to a snapshot of the gate map: the per-gate contract composes because of the frame clauses (meta-argument); the loop itself is exercised by the bounded layer')
+    rep.assume('into_bench: the loop over the snapshot of the gate map is proved by an invariant on an arbitrary circuit, with convert_gate used through its contract (the clauses proved per type above; '
+               'congruence of the abstract equation predicate eq_S(l): it depends only on the definition of l; dict iteration enumerates every key once); '
+               'the step from "new equations imply the original equations" to "same truth table" is rule R2')
     it = new_interp()
     pv = Prover(rep, it, 'C14')
     for t in S.GATE_TYPES:
         if t == 'INPUT':
             continue
         pv.run_contract(ConvertGate(t))
+    # the loop of into_bench on an arbitrary circuit, convert_gate through its contract (c14_loop.py)
+    from .c14_loop import IntoBench
+    it.loop_specs.clear()
+    it.contracts.clear()
+    pv.run_contract(IntoBench())
+    it.loop_specs.clear()
+    it.contracts.clear()
     p, q = z3.Bools('p q')
     canary(rep, pv, 'C14/canary/gt-as-and-not-first', [], theory.OPz('GT', [p, q]) == z3.And(q, z3.Not(p)))
     refuted = pv.discharge(env.NPROC)
@@ -245,4 +262,5 @@ def run(rep):
     from .common import run_bounded
     run_bounded(rep, 'C14', quick)
     rep.extra['explanation'] = ('Every clause is generated by symbolic execution of the real convert_gate/_convert_*/emplace_gate/validation/_add_user/'
-                                '_remove_user source on an arbitrary well-formed circuit (state as substitution over uninterpreted pre-state symbols).')
+                                '_remove_user source on an arbitrary well-formed circuit (state as substitution over uninterpreted pre-state symbols); '
+                                'into_bench itself is verified by a loop invariant against the contract of convert_gate.')
